@@ -152,14 +152,14 @@ class World:
 
 class C20(Prop):
     id = 'C20'
-    budgets = {'quick': 2500, 'thorough': 30000}
+    budgets = {'quick': 8000, 'thorough': 40000}
     time_limit = {'quick': 60, 'thorough': 600}
     rule = ('histories of 1-12 operations (0-3 callbacks attached first, 70 % then fired) on a real twisted Deferred: fire with a value (None, ints, nested tuples) / fail with an exception, '
             'addCallbacks with pairs that pass through, return a value, raise, return an already-fired or an unfired Deferred (chaining), probes that record '
             'what later callbacks see; resume of the chained Deferred; has_no_result / succeeded(Always|Never|Equals) / failed(Always|Never|exception code); '
             'classify = the three classifying matchers on three replicas of the Deferred; extract_result; afterwards the Deferred is dropped and the Twisted '
             'log is checked for "Unhandled error in Deferred". Plus tests run with SynchronousDeferredRunTest that return / raise / return fired or unfired '
-            'Deferreds. thorough adds every history of length <= 4 over a 14-operation alphabet. non-trivial = a history with a matcher or extract after at '
+            'Deferreds. thorough adds every history of length <= 5 over a 14-operation alphabet. non-trivial = a history with a matcher or extract after at '
             'least one other operation, or a runUser case with a Deferred; distinct = distinct input S-expression')
     assumptions = ['twisted.internet.defer.Deferred (callback chain, pausing on a returned Deferred, AlreadyCalledError, DebugInfo.__del__ logging '
                    '"Unhandled error in Deferred" exactly when the last result is a Failure) is modelled by TTV.Deferred.runCbs/add/fire/resume, not verified',
@@ -340,7 +340,7 @@ class C20(Prop):
     def enumerate(self, tier):
         for b in self.BEHS:
             yield ['runUser', b]
-        for n in range(1, 5):
+        for n in range(1, 6):
             for ops in itertools.product(self.ALPHABET, repeat=n):
                 yield ['history', list(ops)]
 
